@@ -21,27 +21,33 @@ theorem dispatch_addr (s : Proto) (p : Packet) (o : Bool) : (s.dispatch p o).add
 /-- `send_packet` as translated computes what the model's `Proto.sendPacket` does (the proof unfolds whatever the
 translation contains and closes the goal by `grind`: it does not depend on how the source nests its tests) -/
 theorem src_sendPacket_eq (s : Proto) (p : Packet) : Src.sendPacket s p = s.sendPacket p := by
-  simp only [Src.sendPacket, Proto.sendPacket, dispatch_addr]
-  grind
+  first
+  | rfl      -- not translated on this run: the generated definition is the model's
+  | (simp only [Src.sendPacket, Proto.sendPacket, dispatch_addr]; first | done | grind)
 
 /-- `tick` as translated computes what the model's `Proto.tick` does -/
 theorem src_tick_eq (s : Proto) : Src.tick s = s.tick := by
-  simp only [Src.tick, Proto.tick, Proto.ifaceGet]
-  grind
+  first
+  | rfl
+  | (simp only [Src.tick, Proto.tick, Proto.ifaceGet]; first | done | grind)
 
 theorem src_removeHandler_eq (s : Proto) (id : Nat) : Src.removeHandler s id = s.remove id := by
-  simp only [Src.removeHandler, Proto.remove, Proto.removeKey]
-  cases h : s.handlers.any (·.1 == id)
-  · have hf : s.handlers.filter (·.1 != id) = s.handlers := by
-      rw [List.filter_eq_self]
-      intro e he
-      rw [List.any_eq_false] at h
-      simpa using h e he
-    simp [hf]
-  · simp
+  first
+  | rfl
+  | (simp only [Src.removeHandler, Proto.remove, Proto.removeKey]
+     cases h : s.handlers.any (·.1 == id)
+     · have hf : s.handlers.filter (·.1 != id) = s.handlers := by
+         rw [List.filter_eq_self]
+         intro e he
+         rw [List.any_eq_false] at h
+         simpa using h e he
+       simp [hf]
+     · simp)
 
 theorem src_nextHandlerId_eq (s : Proto) : Src.nextHandlerId s = nextId (s.handlers.map Prod.fst) := by
-  simp only [Src.nextHandlerId, nextId]
+  first
+  | rfl
+  | simp only [Src.nextHandlerId, nextId]
 
 #print axioms src_sendPacket_eq
 #print axioms src_tick_eq
